@@ -335,7 +335,7 @@ impl Monitor for C08 {
         vec![("lattice", tier.pick(4320 * 150, 3 * 1440 * 1440)), ("sequences", tier.pick(75_000, 750_000)), ("flat_sizes", 1100), ("flatten", tier.pick(15_000, 150_000))]
     }
     fn rule(&self) -> &'static str {
-        "lattice: single conv/deconv/pool layers; axis 0 enumerates (extent 1..10, kernel 1..4, stride 1..3, padding 0..3, dilation 1..3) completely, axis 1 follows a covering walk over the same 1440 tuples; configurations invalid by the standard formulas are skipped (counted); for the others: the `inputs -> outputs` line of the network's Display == closed form (conv floor((i+2p-d(k-1)-1)/s)+1, deconv (i-1)s-2p+k, pool floor((i-k)/s)+1) == shape field and nesting of the tensors forward produces, and every weight/bias/kernel gradient of the hooked backward has the shape of its parameter. sequences: random networks of depth 1..5 with all transitions. flat_sizes: EVERY flat size n = 1..1100 x {conv, deconv, pool}: accepted iff n is a perfect square, then read as 1 x r x r in row-major order (index-valued input through 1x1 identity layers); network-level (dense(n) followed by the spatial layer) for n <= 150. flatten: spatial output into identity dense layer must arrive in row-major order."
+        "lattice: single conv/deconv/pool layers; axis 0 enumerates (extent 1..10, kernel 1..4, stride 1..3, padding 0..3, dilation 1..3) completely, axis 1 follows a covering walk over the same 1440 tuples; configurations invalid by the standard formulas are skipped (counted); for the others: the `inputs -> outputs` line of the network's Display == closed form (conv floor((i+2p-d(k-1)-1)/s)+1, deconv (i-1)s-2p+k, pool floor((i-k)/s)+1) == shape field and nesting of the tensors forward produces, and every weight/bias/kernel gradient of the hooked backward has the shape of its parameter. sequences: random networks of depth 1..5 with all transitions, every fourth with a feedback block. flat_sizes: EVERY flat size n = 1..1100 x {conv, deconv, pool}: accepted iff n is a perfect square, then read as 1 x r x r in row-major order (index-valued input through 1x1 identity layers); network-level (dense(n) followed by the spatial layer) for n <= 150. flatten: spatial output into identity dense layer must arrive in row-major order."
     }
     fn assumptions(&self) -> Vec<&'static str> {
         vec!["the Display output of Network is parsed black-box for the announced shapes", "harness built with overflow checks on"]
@@ -356,7 +356,10 @@ impl Monitor for C08 {
             "sequences" => {
                 let mut o = NetOpts::standard();
                 o.max_extent = 8;
-                let cfg = random_net(&mut rng, &o);
+                let mut cfg = random_net(&mut rng, &o);
+                if idx % 4 == 3 && cfg.layers.len() >= 2 {
+                    insert_block(&mut rng, &mut cfg, 3);
+                }
                 out.key = cfg.describe();
                 out.cover("architectures", cfg.architecture());
                 check_network(&cfg, &mut out, "sequence");
